@@ -1,6 +1,7 @@
 #!/bin/sh
 # Applies each behaviour-preserving refactoring under /verif/harmless/<id>/patch.diff to /repo, runs every claimed
 # check, undoes it.  Expected: no VIOLATION line (exit 0; exit 2 = undecided is recorded as such).
+export PYVC_EVIDENCE_DIR=${PYVC_EVIDENCE_DIR:-/tmp/pyvc_evidence_scratch}   # runs on modified trees never overwrite /verif/evidence
 OUT=/verif/harmless/RESULTS.tsv; : > $OUT
 [ -z "$(git -C /repo status --porcelain --untracked-files=no)" ] || { echo "/repo not clean"; exit 3; }
 PROPS=${PROPS:-"C01 C02 C03 C04 C05 C06 C07 C08 C09 C10 C11 C12 C13 C14 C15 C16 C17"}
